@@ -33,7 +33,7 @@ def main():
             subprocess.run(["git", "-C", wt, "reset", "-q"], capture_output=True)
         if r.returncode != 0 and os.environ.get("SEED_BASE", "6cdb13b"):
             # the patch was written against an older tree and conflicts with a later fix: audit that older tree
-            subprocess.run(["git", "-C", wt, "checkout", "-q", "--detach", os.environ.get("SEED_BASE", "6cdb13b")], capture_output=True)
+            subprocess.run(["git", "-C", wt, "checkout", "-q", "-f", "--detach", os.environ.get("SEED_BASE", "6cdb13b")], capture_output=True)
             r = subprocess.run(["git", "-C", wt, "apply", patch], capture_output=True, text=True)
             print("(applied to the older tree %s)" % os.environ.get("SEED_BASE", "6cdb13b"))
         if r.returncode != 0:
